@@ -238,4 +238,25 @@ def expandDefault (same : Seq → Seq → Bool) (gpt : Nat → List PT → PT) (
     (prevs : List (ItemId × Seq)) : Except Err (List Item) :=
   exportPT same pfx (gpt args (prevs.map fun p => PT.atom p.1 p.2))
 
+mutual
+/-- the sequents stated by the derivation nodes of a proof term -/
+def PT.nodeSeqs : PT → List Seq
+  | .atom _ _ => []
+  | .node _ _ prevs th => th :: nodeSeqsList prevs
+def nodeSeqsList : List PT → List Seq
+  | [] => []
+  | p :: ps => p.nodeSeqs ++ nodeSeqsList ps
+end
+
+mutual
+/-- no derivation node states the same sequent as one of the nodes below it (a derivation that
+does not run in a circle) -/
+def PT.noRepeat : PT → Bool
+  | .atom _ _ => true
+  | .node _ _ prevs th => !(nodeSeqsList prevs).contains th && noRepeatList prevs
+def noRepeatList : List PT → Bool
+  | [] => true
+  | p :: ps => p.noRepeat && noRepeatList ps
+end
+
 end Holpy.C04
